@@ -382,6 +382,7 @@ func build(sc StackCase, sizeCap int) (*stack, error) {
 					if !bytes.Equal(m.Payload, firstUse) {
 						st.got <- append([]byte{}, m.Payload...)
 					}
+					netsim.Scribble(m.Payload) // the callback owns the message: modify it before returning
 				}); err != nil {
 					return
 				}
@@ -397,7 +398,9 @@ func build(sc StackCase, sizeCap int) (*stack, error) {
 					if !bytes.Equal(m.Payload, firstUse) {
 						st.asked <- append([]byte{}, m.Payload...)
 					}
-					return copy(resp, answer(m.Payload))
+					n := copy(resp, answer(m.Payload))
+					netsim.Scribble(m.Payload)
+					return n
 				}); err != nil {
 					return
 				}
@@ -425,6 +428,7 @@ func (st *stack) siblingReceivers(ctx context.Context, n node) {
 				if !bytes.Equal(m.Payload, firstUse) {
 					st.got <- mark(m.Payload)
 				}
+				netsim.Scribble(m.Payload)
 			}); err != nil {
 				return
 			}
@@ -437,7 +441,9 @@ func (st *stack) siblingReceivers(ctx context.Context, n node) {
 					if !bytes.Equal(m.Payload, firstUse) {
 						st.asked <- mark(m.Payload)
 					}
-					return copy(resp, answer(m.Payload))
+					n := copy(resp, answer(m.Payload))
+					netsim.Scribble(m.Payload)
+					return n
 				}); err != nil {
 					return
 				}
